@@ -484,6 +484,57 @@ def ktable_terms(ix, R, kt, pfx='7'):
             loc=f.loc(au.node), extracted=fmt(fl, au.value))
     r = one([e for e in fl.of('return') if isinstance(e.value_ast, ast.Tuple)], 'tuple return')
     _ret_roles(R, pfx + '.ret', site, fl, f, r, au.name)
+    # surface column of the molecules: one slant column per emission angle
+    cc = [e for e in calls(fl, 'contribute') if e.loops and e.loops[0].kind == 'enumerate' and len(e.loops) == 1]
+    why = []
+    if len(cc) != 1:
+        why.append('%d per-angle molecule calls' % len(cc))
+    else:
+        e = cc[0]
+        lp = e.loops[0]
+        got = bind_call(e, CONTRIB_PARAMS, True)
+        m = fl.tab.atom('elem', (lp.iter_rf[0], lp.index))
+        b3 = dict(b, m=m, dz=code(fl, 'self.deltaz'))
+        for p, w in (('start_layer', '0'), ('end_layer', 'N'), ('density_offset', '0'), ('layer', '0'),
+                     ('density', 'rho'), ('path_length', 'dz*m')):
+            if p not in got or not fl.tab.equal(got[p], spec(fl, w, b3)):
+                why.append('%s <- %s' % (p, fmt(fl, got.get(p))))
+        if not fl.tab.equal(lp.iter_rf[0], b['mu']):
+            why.append('angle loop over %s' % fmt(fl, lp.iter_rf[0]))
+        tmp = got.get('tau')
+        rs = [x for x in fl.of('reset') if tmp is not None and fl.tab.equal(x.new, tmp)]
+        if not rs or rs[0].loops != (lp,) or rs[0].value.const() != 0:
+            why.append('per-angle buffer is not zeroed inside the angle loop')
+        sts = [x for x in fl.of('store') if x.loops == (lp,)]
+        ok = len(sts) == 1 and sts[0].op == 'Add' and tmp is not None and \
+            fl.tab.equal(sts[0].value, fl.tab.atom('idx', (tmp, fl.tab.const(0))))
+        if ok:
+            ta = atom_of(fl, sts[0].target)
+            ok = ta is not None and ta.head == 'idx' and fl.tab.equal(ta.args[1], lp.index)
+        if not ok:
+            why.append('per-angle column is not added at its own angle index')
+        g = [x for x in e.guards if not x.early]
+        if len(g) != 1 or not g[0].positive or 'is not None' not in g[0].text():
+            why.append('guards %s' % [x.text() for x in g])
+    R.check(pfx + '.ksurf', 'SIB', site,
+            'surface column of the k-table molecules: for each emission angle i, contribute(0, N, 0, 0, density, tmp, '
+            'dz/mu_i) into a zeroed buffer, added to surface_tau[i]',
+            not why, key='; '.join(why), detail='; '.join(why), loc=f.loc())
+    # surface intensity
+    init = [x for x in fl.assign_log.get(au.name, []) if isinstance(x[0], ast.Assign)]
+    node, val = one(init, 'initial assignment of the intensity')
+    exps = [a for a in val.all_atoms() if fl.tab.atoms[a].head == 'exp']
+    want0 = spec(fl, 'black_body(wngrid, T[0])/pi', b)
+    ok0 = len(exps) == 1 and fl.tab.equal(val, want0 * RF(fl.tab, __import__('sa.algebra', fromlist=['p_atom']).p_atom(exps[0])))
+    arg = fl.tab.atoms[exps[0]].args[0] if exps else None
+    # exponent is -(surface_tau after scaling by 1/mu and the per-angle additions): a phi of surface_tau
+    ok0 = ok0 and arg is not None and fl.tab.equal(-arg, kt['S'] * b['mu'])
+    R.check(pfx + '.kI0', 'SIB', site, 'I0 = B(T[0])/pi * exp(-surface column) with the column already divided by mu',
+            ok0, key='I0 = %s' % fmt(fl, val), detail='I0 = %s' % fmt(fl, val), loc=f.loc(node))
+    sc = [x for x in fl.of('assign') if x.name == 'surface_tau' and x.op is None and not x.loops]
+    oks = any(fl.tab.equal(x.value, kt['S'] * b['mu']) for x in sc)
+    R.check(pfx + '.kscale', 'SIB', site, 'the non-molecule surface column is divided by mu once (surface_tau * (1/mu))',
+            oks, key='scale %s' % [fmt(fl, x.value) for x in sc], detail='%s' % [fmt(fl, x.value) for x in sc], loc=f.loc())
 
 
 MUTANTS = [
